@@ -252,7 +252,11 @@ EmitMove:
           uint32_t alt_id = wd._phys_to_var_id[out_id];
           Var& alt_var = ctx._vars[alt_id];
 
-          if (!alt_var.out.is_initialized() || (alt_var.out.is_reg() && alt_var.out.reg_id() == cur_id)) {
+          // A register that `var` wants is occupied by `alt_var`. This can be solved immediately if `alt_var` wants the
+          // register of `var` (or nothing). Otherwise both are part of a longer cycle, which is only broken up when the
+          // previous iteration was not able to do anything else.
+          bool alt_wants_cur = !alt_var.out.is_initialized() || (alt_var.out.is_reg() && alt_var.out.reg_id() == cur_id);
+          if (alt_wants_cur || work_flags == kWorkPostponed) {
             // Only few architectures provide swap operations, and only for few register groups.
             if (arch_traits.has_inst_reg_swap(cur_group)) {
               RegType highest_type = Support::max(cur.reg_type(), alt_var.cur.reg_type());
@@ -268,10 +272,10 @@ EmitMove:
               var.mark_done();
               alt_var.cur.set_reg_id(cur_id);
 
-              if (alt_var.out.is_initialized()) {
+              if (alt_var.out.is_initialized() && alt_wants_cur) {
                 alt_var.mark_done();
               }
-              work_flags |= kWorkDidSome;
+              work_flags |= kWorkDidSome | (alt_wants_cur ? kWorkNone : kWorkPending);
             }
             else {
               // If there is a scratch register it can be used to perform the swap.
